@@ -15,7 +15,7 @@
 //! Descriptors:
 //!  {"kind":"batch","n":N,"fail":k (0 = none),"len":L,"at":s,"units":[{loco params}..],"dem":[..]}
 //!  {"kind":"esttimes","cars":[n1,n2],"dir":"AB"|"BA","depart":s,"locos":m}
-//!  {"kind":"dispatch","trains":[{"cars":[n1,n2],"dir":..,"depart":s}..],"walk":bool}
+//!  {"kind":"dispatch","trains":[{"cars":[n1,n2,n3],"dir":..,"depart":s}..],"walk":bool}
 //!  {"kind":"setspeed"|"speedlimit","scale":"toy"|"real","cars":n,"len":L}
 #[path = "../canon.rs"]
 mod canon;
@@ -87,6 +87,25 @@ struct World {
     lm: LocationMap,
     rv_loaded: RailVehicle,
     rv_empty: RailVehicle,
+    rv_inter: RailVehicle,
+}
+impl World {
+    /// three car types: n_cars_by_type is a HashMap with three keys, so every order-dependent float sum over it
+    /// (three terms are not associative) or "first key" choice would differ between runs
+    fn train_config(&self, n: [u32; 3]) -> anyhow::Result<TrainConfig> {
+        TrainConfig::new(
+            vec![self.rv_loaded.clone(), self.rv_empty.clone(), self.rv_inter.clone()],
+            HashMap::from([
+                (self.rv_loaded.car_type.clone(), n[0]),
+                (self.rv_empty.car_type.clone(), n[1]),
+                (self.rv_inter.car_type.clone(), n[2]),
+            ]),
+            TrainType::Freight,
+            None,
+            None,
+            None,
+        )
+    }
 }
 static WORLD: OnceLock<Result<World, String>> = OnceLock::new();
 fn world() -> anyhow::Result<&'static World> {
@@ -99,6 +118,7 @@ fn world() -> anyhow::Result<&'static World> {
                     lm: import_locations(res.join("networks/simple_corridor_locations.csv"))?,
                     rv_loaded: RailVehicle::from_file(res.join("rolling_stock/Manifest_Loaded.yaml"))?,
                     rv_empty: RailVehicle::from_file(res.join("rolling_stock/Manifest_Empty.yaml"))?,
+                    rv_inter: RailVehicle::from_file(res.join("rolling_stock/Intermodal_Loaded.yaml"))?,
                 })
             })()
             .map_err(|e| errtxt(&e))
@@ -109,18 +129,9 @@ fn world() -> anyhow::Result<&'static World> {
 
 fn corridor_train(t: &Value, id: &str) -> anyhow::Result<SpeedLimitTrainSim> {
     let w = world()?;
-    let cars = t.get("cars").and_then(|x| x.as_array()).cloned().unwrap_or(vec![json!(20), json!(10)]);
-    let n1 = cars.first().and_then(|x| x.as_u64()).unwrap_or(20) as u32;
-    let n2 = cars.get(1).and_then(|x| x.as_u64()).unwrap_or(0) as u32;
-    // two car types: n_cars_by_type is a HashMap with two keys
-    let tc = TrainConfig::new(
-        vec![w.rv_loaded.clone(), w.rv_empty.clone()],
-        HashMap::from([(w.rv_loaded.car_type.clone(), n1), (w.rv_empty.car_type.clone(), n2)]),
-        TrainType::Freight,
-        None,
-        None,
-        None,
-    )?;
+    let cars = t.get("cars").and_then(|x| x.as_array()).cloned().unwrap_or_default();
+    let c = |i: usize, d: u32| cars.get(i).and_then(|x| x.as_u64()).map(|x| x as u32).unwrap_or(d);
+    let tc = w.train_config([c(0, 20), c(1, 10), c(2, 5)])?;
     let mut con = Consist::default();
     if let Some(m) = t.get("locos").and_then(|x| x.as_u64()) {
         con.loco_vec.truncate((m as usize).clamp(1, 5));
@@ -206,14 +217,7 @@ fn execute(desc: &Value) -> anyhow::Result<(bool, Node)> {
             let mut s = if real {
                 let w = world()?;
                 let n = desc.get("cars").and_then(|x| x.as_u64()).unwrap_or(20) as u32;
-                let tc = TrainConfig::new(
-                    vec![w.rv_loaded.clone(), w.rv_empty.clone()],
-                    HashMap::from([(w.rv_loaded.car_type.clone(), n), (w.rv_empty.car_type.clone(), n / 2)]),
-                    TrainType::Freight,
-                    None,
-                    None,
-                    None,
-                )?;
+                let tc = w.train_config([n, n / 2 + 1, n / 3 + 1])?;
                 let tsb = TrainSimBuilder::new("s".into(), tc, Consist::default(), None, None, None);
                 let route: Vec<LinkIdx> = [1u32, 2, 4].iter().map(|l| LinkIdx::new(*l)).collect();
                 tsb.make_set_speed_train_sim(&w.net, route, ramp(len, 0.05, 6.0), Some(1))?
@@ -312,7 +316,7 @@ fn exec(desc: &Value, tr: &mut Tracer) -> anyhow::Result<()> {
         tr.emit(ev);
     }
     let reps = desc.get("reps").and_then(|x| x.as_u64()).unwrap_or(2);
-    let mut log = |how: &str, threads: usize, rep: u64, b: &LocomotiveSimulationVec, r: &anyhow::Result<()>, tr: &mut Tracer| {
+    let log = |how: &str, threads: usize, rep: u64, b: &LocomotiveSimulationVec, r: &anyhow::Result<()>, tr: &mut Tracer| {
         let elems: Vec<Value> = b
             .0
             .iter()
@@ -348,14 +352,23 @@ fn gen(seed: u64, n: usize, tier: &str) -> Vec<Value> {
     let heavy: i64 = if tier == "quick" { 1 } else { 4 };
     for k in 0..n {
         let mut r = Rng::new(seed.wrapping_mul(9_176_533).wrapping_add(k as u64));
-        let cars = |r: &mut Rng| json!([r.range(5, 50), r.range(0, 30)]);
+        let cars = |r: &mut Rng| json!([r.range(5, 50), r.range(1, 30), r.range(1, 20)]);
         let c = match k % 10 {
             0 | 1 | 2 | 3 => {
                 // larger batches, random unit parameters, failing element at a random position (or none)
                 let nb = r.range(2, 12);
+                // half of the batches off the dyadic lattice: order-dependent float sums cannot hide in exact arithmetic
+                let offl = r.chance(1, 2);
                 let units: Vec<Value> = (0..r.range(1, 4))
-                    .map(|_| json!({"kf": *r.pick(&[1, 2, 4]), "kg": *r.pick(&[1, 2]), "ke": *r.pick(&[1, 2]),
-                                    "kr": *r.pick(&[1, 2]), "soc": *r.pick(&[0.25, 0.5, 0.75])}))
+                    .map(|_| {
+                        if offl {
+                            json!({"kf": *r.pick(&[3.0, 2.7]), "kg": *r.pick(&[1.1, 1.3]), "ke": *r.pick(&[1.3, 1.7]),
+                                   "kr": *r.pick(&[1.7, 1.9]), "soc": *r.pick(&[0.3, 0.5, 0.7]), "aux": 33.3, "idle": 70.7})
+                        } else {
+                            json!({"kf": *r.pick(&[1, 2, 4]), "kg": *r.pick(&[1, 2]), "ke": *r.pick(&[1, 2]),
+                                   "kr": *r.pick(&[1, 2]), "soc": *r.pick(&[0.25, 0.5, 0.75])})
+                        }
+                    })
                     .collect();
                 let len = r.range(4, 60);
                 json!({"kind":"batch","n":nb,"fail": if r.chance(2, 3) { r.range(1, nb) } else { 0 },
